@@ -157,3 +157,9 @@ func TestVerifC19_sum_invalid(t *testing.T) {
 	}
 	c19Sys().UnitInvalid(r, t, plan)
 }
+
+func TestVerifC19_sum_codec(t *testing.T) {
+	r := verifmc.Start(t, "C19", "sum_codec")
+	defer r.Finish()
+	c19Sys().UnitCodec(r, t, []prio.Inst{c19Sum(2), c19Sum(5), c19Sum(255)}, []int{2, 3})
+}
